@@ -80,39 +80,21 @@ def run(ctx):
     R2 = 'C10-R2'
     ctx.rule(R2, 'no guard of a blocking lock (parking_lot / std Mutex, RwLock) is alive across a Yield (await) in any coroutine')
     n_locks = 0
-    n_cor = 0
-    for b in prog.bodies.values():
-        if not b.rec.get('coroutine'):
-            continue
-        n_cor += 1
-        yields = {i for i, bl in enumerate(b.blocks) if bl['term']['k'] == 'yield' and not bl['cleanup']}
-        if not yields:
-            continue
-        for c in b.calls:
-            if not BLOCKING_LOCK.search(c.name or ''):
-                continue
-            n_locks += 1
-            ctx.functions_analysed.add(b.name)
-            g = c.dest
-            if g['p'] or c.target is None:
-                continue
-            gl = g['l']
-            ends = set()
-            for i, bl in enumerate(b.blocks):
-                t = bl['term']
-                if t['k'] == 'drop' and t['pl']['l'] == gl and not t['pl']['p']:
-                    ends.add(i)
-                if t['k'] == 'call' and any(a['k'] == 'move' and a['pl']['l'] == gl and not a['pl']['p'] for a in t['args']):
-                    ends.add(i)
-                for st in bl['stmts']:
-                    rv = st.get('rv', {})
-                    if rv.get('rv') == 'use' and rv['op']['k'] == 'move' and rv['op']['pl']['l'] == gl and not rv['op']['pl']['p']:
-                        ends.add(i)   # moved into another local: conservatively treat as end (the new owner is checked if it is a lock dest)
-            reach = b.reachable_from([c.target], avoid=ends)
-            hit = sorted(reach & yields)
-            ctx.ob(R2, f'{b.root}·{short(c.name)}', not hit,
-                   f'{b.name}: guard of `{c.name}` (local _{gl}) is still alive at await/yield blocks {hit}',
-                   [site(b, c.bb)] + [site(b, y) for y in hit[:2]])
+    for b, cl, gl, hit in guards_across_yield(prog):
+        n_locks += 1
+        ctx.functions_analysed.add(b.name)
+        ctx.ob(R2, f'{b.root}·{short(cl.name)}', not hit,
+               f'{b.name}: guard of `{cl.name}` (local _{gl}) is still alive at await/yield blocks {hit}',
+               [site(b, cl.bb)] + [site(b, y) for y in hit[:2]])
+    n_cor = sum(1 for b in prog.bodies.values() if b.rec.get('coroutine'))
+    try:
+        import mir
+        fx = mir.load_fixture()
+        res = {b.root: bool(hit) for b, cl, gl, hit in guards_across_yield(fx)}
+        ctx.ob(R2, 'self-test·fixture', res.get('Shared::guard_across_await') is True and res.get('Shared::guard_released') is False,
+               f'positive example: {res} (guard_across_await must be flagged, guard_released must not)')
+    except SystemExit as e:
+        ctx.ob(R2, 'self-test·fixture', False, f'fixture crate could not be analysed: {e}')
     ctx.floor(R2, n_locks, 8, 'blocking lock acquisitions inside coroutines that await')
     ctx.extra['coroutines'] = n_cor
 
@@ -143,6 +125,55 @@ def run(ctx):
                f'{b.name}: id generator accessed through {[short(c.name) for c in consumers]}',
                [site(b, c.bb) for c in (bad or consumers)])
     ctx.floor(R3, len(uses), 4, 'accesses to the id generators (2 generate_*, 2 fetch_max in bootstrap)')
+
+
+def guards_across_yield(prog):
+    """(body, lock call, guard local, yield blocks reached while the guard is alive) for every blocking lock in a coroutine"""
+    out = []
+    for b in prog.bodies.values():
+        if not b.rec.get('coroutine'):
+            continue
+        yields = {i for i, bl in enumerate(b.blocks) if bl['term']['k'] == 'yield' and not bl['cleanup']}
+        if not yields:
+            continue
+        for c in b.calls:
+            if not BLOCKING_LOCK.search(c.name or ''):
+                continue
+            g = c.dest
+            if g['p'] or c.target is None:
+                continue
+            # ownership chain of the guard value: lock() -> [unwrap()/expect()] -> [let g = ..]; the lock is released
+            # when the LAST owner is dropped or moved away (drops of moved-out temporaries are no-ops)
+            nxt = {}
+            roots = {g['l']}
+            work = [g['l']]
+            while work:
+                o = work.pop()
+                for c2 in b.calls:
+                    if any(a['k'] == 'move' and a['pl']['l'] == o and not a['pl']['p'] for a in c2.args) and \
+                            re.search(r'::(unwrap|expect|unwrap_or_else|into_inner)$', c2.name or '') and not c2.dest['p']:
+                        nxt.setdefault(o, set()).add(c2.dest['l'])
+                for bb_, st in b.stmts():
+                    rv = st.get('rv', {})
+                    if rv.get('rv') == 'use' and rv['op']['k'] == 'move' and rv['op']['pl']['l'] == o and not rv['op']['pl']['p'] \
+                            and not st['lhs']['p']:
+                        nxt.setdefault(o, set()).add(st['lhs']['l'])
+                for n_ in nxt.get(o, ()):
+                    if n_ not in roots:
+                        roots.add(n_)
+                        work.append(n_)
+            leaves = {o for o in roots if not nxt.get(o)}
+            ends = set()
+            for i, bl in enumerate(b.blocks):
+                t = bl['term']
+                if t['k'] == 'drop' and t['pl']['l'] in leaves and not t['pl']['p']:
+                    ends.add(i)
+                if t['k'] == 'call' and any(a['k'] == 'move' and a['pl']['l'] in leaves and not a['pl']['p'] for a in t['args']):
+                    ends.add(i)
+            final = min(leaves) if leaves else g['l']
+            reach = b.reachable_from([c.target], avoid=ends)
+            out.append((b, c, final, sorted(reach & yields)))
+    return out
 
 
 def short(n):
